@@ -83,3 +83,100 @@ Definition range_up (lo hi : N) : list N :=
 (** [Result::unwrap] / [expect]: an [Err] becomes a panic *)
 Definition unwrap_res {A} (o : outcome A) : outcome A :=
   match o with Ok a => Ok a | _ => Panic end.
+
+(** ** Constructs added for the bitfield impls (rs2v second rule set) *)
+
+(** [smallvec![x; n]] / [vec![x; n]] *)
+Definition repeat_n {A} (x : A) (n : N) : list A := repeat x (N.to_nat n).
+
+(** [v.resize(n, x)], [v.truncate(n)] *)
+Definition truncate_n {A} (l : list A) (n : N) : list A := firstn (N.to_nat n) l.
+Definition resize_n {A} (l : list A) (n : N) (x : A) : list A :=
+  if n <=? llen l then truncate_n l n else l ++ repeat_n x (n - llen l).
+
+(** [o.unwrap_or(d)] *)
+Definition opt_unwrap_or {A} (o : option A) (d : A) : A :=
+  match o with Some a => a | None => d end.
+
+(** [xs.iter().enumerate()] *)
+Definition enumerate_n {A} (l : list A) : list (N * A) := combine (range_up 0 (llen l)) l.
+
+(** [Option::map] / [Iterator::map] with a closure that can fail or panic *)
+Definition opt_mapm {A B} (f : A -> outcome B) (o : option A) : outcome (option B) :=
+  match o with
+  | Some a => do b <- f a; Ok (Some b)
+  | None => Ok None
+  end.
+(* [Iterator::map] with a fallible closure, consumed up to the first error: [mapM] of Base.v *)
+
+(** [Result::ok] *)
+Definition outcome_ok {A} (o : outcome A) : outcome (option A) :=
+  match o with Ok a => Ok (Some a) | Err => Ok None | Panic => Panic end.
+
+(** [u8::leading_zeros], [u8::count_ones] *)
+Definition leading_zeros8 (b : N) : N := if b =? 0 then 8 else 7 - N.log2 b.
+Fixpoint popcount_fuel (fuel : nat) (b : N) : N :=
+  match fuel with O => 0 | S f => (b mod 2) + popcount_fuel f (b / 2) end.
+Definition count_ones8 (b : N) : N := popcount_fuel 8 b.
+
+(** [iter.sum::<usize>()]: checked additions (the harness profile) *)
+Definition usize_sum (l : list N) : outcome N := fold_m usize_add l 0.
+
+(** [a == b] on byte vectors *)
+Fixpoint bytes_eqb (a b : list N) : bool :=
+  match a, b with
+  | [], [] => true
+  | x :: ar, y :: br => (x =? y) && bytes_eqb ar br
+  | _, _ => false
+  end.
+
+(** [for x in it { body }] over a translated iterator ([next] is its translated [&mut self]
+    method, returning the item and the new iterator state): [next] and the body alternate, the
+    loop ends at the first [None].  [for_iter_enum] is the same loop over [it.enumerate()] (the
+    counter of [Enumerate] is not overflow-checked here: it cannot reach 2^64).  The fuel is the
+    termination measure rs2v attaches to the iterator type; running out of it is a [Panic], so
+    that a measure that is too small cannot make an equivalence proof succeed. *)
+Fixpoint for_iter_from {It A St} (next : It -> outcome (option A * It)) (body : St -> N * A -> outcome St)
+         (fuel : nat) (it : It) (i : N) (st : St) : outcome St :=
+  match fuel with
+  | O => Panic
+  | S f =>
+      do r <- next it;
+      match r with
+      | (None, _) => Ok st
+      | (Some a, it') => do st' <- body st (i, a); for_iter_from next body f it' (i + 1) st'
+      end
+  end.
+Definition for_iter_enum {It A St} (next : It -> outcome (option A * It)) (body : St -> N * A -> outcome St)
+           (fuel : nat) (it : It) (st : St) : outcome St := for_iter_from next body fuel it 0 st.
+Definition for_iter {It A St} (next : It -> outcome (option A * It)) (body : St -> A -> outcome St)
+           (fuel : nat) (it : It) (st : St) : outcome St :=
+  for_iter_from next (fun st p => body st (snd p)) fuel it 0 st.
+
+(** ** Constructs added for the [Decode] impls (rs2v third rule set) *)
+
+(** [lo..=hi] *)
+Definition range_incl (lo hi : N) : list N := range_up lo (hi + 1).
+
+(** [slice.chunks(n)] for [n > 0] (the callers check [n != 0] first; [chunks(0)] panics in Rust and
+    is never reached in a translated body without that check) *)
+Definition chunks_n (l : bytes) (n : N) : list bytes := chunks (N.to_nat n) l.
+
+(** [xs.map(f)] consumed up to the first error, where the closure [f] assigns captured locals:
+    the state is threaded through the calls and returned with the items *)
+Fixpoint map_state {S X A} (f : S -> X -> outcome (A * S)) (l : list X) (s : S) : outcome (list A * S) :=
+  match l with
+  | [] => Ok ([], s)
+  | x :: r => do p <- f s x; do q <- map_state f r (snd p); Ok (fst p :: fst q, snd q)
+  end.
+
+(** std / third-party constructors (assumed behaviour, tied by the correspondence harness):
+    [NonZeroUsize::new]; alloy [Address::from_slice] / [Bloom::from_slice] (panic unless the slice has
+    exactly the type's length); ruint [Uint::from_le_slice] (panics when the value does not fit);
+    [TryFromIter for Vec / SmallVec] (collects everything, never refuses) *)
+Definition nonzero_new (x : N) : option N := if x =? 0 then None else Some x.
+Definition from_slice_exact (n : N) (bs : bytes) : outcome bytes := if llen bs =? n then Ok bs else Panic.
+Definition uint_from_le_slice (nbytes : N) (bs : bytes) : outcome N :=
+  if le_val bs <? 256 ^ nbytes then Ok (le_val bs) else Panic.
+Definition vec_try_from_iter {A} (l : list A) : outcome (list A) := Ok l.
+Definition smallvec_try_from_iter {A} (l : list A) : outcome (list A) := Ok l.
